@@ -1779,6 +1779,389 @@ def r15_one_shot_scope_fields(run):
                 run.ok("scope[%r] is consumed at one site that runs at most once per request (%s)" % (key, how), f.loc(n), st)
 
 
+# ---------------------------------------------------------------------------
+# R16 header emitters: per-item transformation parity (_wsgi_headers / _asgi_headers)
+# ---------------------------------------------------------------------------
+
+WSGI_EMITTER = 'falcon.response.Response._wsgi_headers'
+ASGI_EMITTER = 'falcon.asgi.response.Response._asgi_headers'
+
+# the three things both emitters deliver, recognised by the response attribute they iterate
+_EMIT_SOURCES = {'_headers': ('store', 'map'), '_extra_headers': ('extra', 'pairs'), '_cookies': ('cookies', 'map')}
+# the documented ASGI-only step: header names and values are byte strings (ASGI HTTP spec); the WSGI server performs the
+# same ISO-8859-1 encoding of the native strings itself (PEP 3333).  group -> codecs under which ASGI delivers the bytes
+# the WSGI server would put on the wire (ASCII is the common subset used for cookies / extra headers)
+_EMIT_CODECS = {'store': ('iso8859-1',), 'extra': ('ascii', 'iso8859-1'), 'cookies': ('ascii', 'iso8859-1')}
+_COOKIE_TEXT = '__cookie_text__'
+
+
+class _EmitGroup:
+    """one group of emitted headers: the per-item name / value expressions
+    relative to the loop variables (None: the stored pair as it is)"""
+
+    def __init__(self, group, fn, site, name_e=None, value_e=None, name_root=None, value_root=None, pre=()):
+        self.group, self.fn, self.site = group, fn, site
+        self.name_e, self.value_e, self.name_root, self.value_root = name_e, value_e, name_root, value_root
+        self.pre = list(pre)   # statements of the loop body that run before the item is appended (they may rebind the loop variables)
+
+
+class _EmitReader:
+    def __init__(self, p, f: Func):
+        self.p, self.f = p, f
+        self.helpers: List[Func] = []
+
+    # ---- what an expression iterates
+    def _kind(self, fn: Func, env, e):
+        """(group, 'map' | 'pairs' | 'values') or None"""
+        if isinstance(e, ast.Name) and e.id in env:
+            return env[e.id]
+        if isinstance(e, ast.Attribute) and isinstance(e.value, ast.Name) and e.value.id == 'self' and fn is self.f and e.attr in _EMIT_SOURCES:
+            return _EMIT_SOURCES[e.attr]
+        if isinstance(e, ast.Call) and isinstance(e.func, ast.Attribute) and not e.args and not e.keywords:
+            base = self._kind(fn, env, e.func.value)
+            if base is not None and base[1] == 'map':
+                if e.func.attr == 'items' and base[0] != 'cookies':
+                    return (base[0], 'pairs')
+                if e.func.attr == 'values' and base[0] == 'cookies':
+                    return (base[0], 'values')
+        return None
+
+    def _env(self, fn: Func, seed=None):
+        """locals all of whose bindings are one of the sources"""
+        env = dict(seed or {})
+        binds: Dict[str, list] = {}
+        for n in walk_self(fn.node):
+            if isinstance(n, ast.Assign):
+                for t in n.targets:
+                    for x in ast.walk(t):
+                        if isinstance(x, ast.Name) and isinstance(x.ctx, ast.Store):
+                            binds.setdefault(x.id, []).append(self._kind(fn, env, n.value) if t is x else None)
+            elif isinstance(n, (ast.AnnAssign, ast.AugAssign, ast.NamedExpr)) and isinstance(n.target, ast.Name):
+                binds.setdefault(n.target.id, []).append(self._kind(fn, env, n.value) if isinstance(n, ast.AnnAssign) and n.value is not None else None)
+            elif isinstance(n, (ast.For, ast.AsyncFor)):
+                for x in ast.walk(n.target):
+                    if isinstance(x, ast.Name):
+                        binds.setdefault(x.id, []).append(None)
+        for k, v in binds.items():
+            if k in env:
+                raise UnknownIdiom('%s: the header source %s is rebound' % (fn.qual, k))
+            if v and v[0] is not None and all(x == v[0] for x in v):
+                env[k] = v[0]
+        return env
+
+    # ---- one expression contributing items
+    def _pair(self, fn, elt, what):
+        if not (isinstance(elt, ast.Tuple) and len(elt.elts) == 2):
+            raise UnknownIdiom('%s: emitted item %s is not a (name, value) pair display' % (fn.qual, short(elt)))
+        return elt.elts
+
+    def _iterated(self, fn, env, target, it, site):
+        """(group, name_root, value_root) for `for <target> in <it>`"""
+        k = self._kind(fn, env, it)
+        if k is None or k[1] == 'map':
+            raise UnknownIdiom('%s: cannot read what %s iterates' % (fn.qual, short(site)))
+        if k[1] == 'pairs':
+            if not (isinstance(target, ast.Tuple) and len(target.elts) == 2 and all(isinstance(x, ast.Name) for x in target.elts)):
+                raise UnknownIdiom('%s: loop target %s over header pairs' % (fn.qual, short(target)))
+            return k[0], target.elts[0].id, target.elts[1].id
+        if not isinstance(target, ast.Name):
+            raise UnknownIdiom('%s: loop target %s over the cookies' % (fn.qual, short(target)))
+        return k[0], None, target.id
+
+    def items_of(self, fn: Func, env, e, depth=0) -> List[_EmitGroup]:
+        k = self._kind(fn, env, e)
+        if k is not None and k[1] == 'pairs':
+            return [_EmitGroup(k[0], fn, e)]
+        if isinstance(e, (ast.List, ast.Tuple)):
+            out = []
+            for x in e.elts:
+                if not isinstance(x, ast.Starred):
+                    raise UnknownIdiom('%s: a literal header item in %s' % (fn.qual, short(e)))
+                out += self.items_of(fn, env, x.value, depth)
+            return out
+        if isinstance(e, ast.BinOp) and isinstance(e.op, ast.Add):
+            return self.items_of(fn, env, e.left, depth) + self.items_of(fn, env, e.right, depth)
+        if isinstance(e, (ast.ListComp, ast.GeneratorExp)):
+            if len(e.generators) != 1 or e.generators[0].ifs or e.generators[0].is_async:
+                raise UnknownIdiom('%s: filtered / nested comprehension %s over the headers' % (fn.qual, short(e)))
+            g = e.generators[0]
+            group, nr, vr = self._iterated(fn, env, g.target, g.iter, e)
+            ne, ve = self._pair(fn, e.elt, e)
+            return [_EmitGroup(group, fn, e, ne, ve, nr, vr)]
+        if isinstance(e, ast.Call) and len(e.args) == 1 and not e.keywords and not isinstance(e.args[0], ast.Starred):
+            q = self.p.resolve_expr(fn.module, e.func, fn)
+            if q in ('builtins.list', 'builtins.tuple', 'builtins.iter'):
+                return self.items_of(fn, env, e.args[0], depth)
+            g = self.p.callee(fn, e)
+            ak = self._kind(fn, env, e.args[0])
+            if isinstance(g, Func) and ak is not None and g.cls is None and not g.is_async and depth < 2:
+                return self._helper(g, ak, depth + 1)
+        raise UnknownIdiom('%s: cannot read which header items %s contributes' % (fn.qual, short(e)))
+
+    def _helper(self, g: Func, arg_kind, depth) -> List[_EmitGroup]:
+        params = g.params()
+        a = g.node.args
+        if len(params) != 1 or a.vararg or a.kwarg:
+            raise UnknownIdiom('%s: helper signature not read' % g.qual)
+        self.helpers.append(g)
+        return self.built_list(g, {params[0]: arg_kind}, depth)
+
+    # ---- the list a function returns
+    def built_list(self, fn: Func, seed, depth=0) -> List[_EmitGroup]:
+        env = self._env(fn, seed)
+        rets = [n for n in walk_self(fn.node) if isinstance(n, ast.Return)]
+        if not rets:
+            raise AnchorError('%s returns nothing' % fn.qual)
+        names = {n.value.id if isinstance(n.value, ast.Name) else None for n in rets}
+        if names == {None} and len(rets) == 1 and rets[0].value is not None:
+            return self.items_of(fn, env, rets[0].value, depth)
+        if len(names) != 1 or None in names:
+            raise UnknownIdiom('%s: the returned header list is not one local on every path' % fn.qual)
+        acc = names.pop()
+        parent = enclosing_map(fn.node)
+        out: List[_EmitGroup] = []
+        seen: Set[int] = set()
+        for n in walk_self(fn.node):
+            if not (isinstance(n, ast.Name) and n.id == acc):
+                continue
+            par = parent.get(id(n))
+            if isinstance(par, ast.Return):
+                continue
+            if isinstance(par, ast.Assign) and par.targets == [n]:
+                v = par.value
+                if isinstance(v, ast.BinOp) and isinstance(v.op, ast.Add) and isinstance(v.left, ast.Name) and v.left.id == acc:
+                    v = v.right          # `acc = acc + <more>` is `acc += <more>`
+                if not (isinstance(v, (ast.List, ast.Tuple)) and not v.elts):
+                    out += self.items_of(fn, env, v, depth)
+                continue
+            if isinstance(par, ast.BinOp) and isinstance(par.op, ast.Add) and par.left is n and isinstance(parent.get(id(par)), ast.Assign) \
+                    and parent[id(par)].value is par and len(parent[id(par)].targets) == 1 and isinstance(parent[id(par)].targets[0], ast.Name) \
+                    and parent[id(par)].targets[0].id == acc:
+                continue                 # the left operand of `acc = acc + <more>` (read with the store)
+            if isinstance(par, ast.AnnAssign) and par.target is n and par.value is not None:
+                if not (isinstance(par.value, (ast.List, ast.Tuple)) and not par.value.elts):
+                    out += self.items_of(fn, env, par.value, depth)
+                continue
+            if isinstance(par, ast.AugAssign) and par.target is n and isinstance(par.op, ast.Add):
+                out += self.items_of(fn, env, par.value, depth)
+                continue
+            call = parent.get(id(par)) if isinstance(par, ast.Attribute) and par.value is n else None
+            if isinstance(call, ast.Call) and call.func is par and len(call.args) == 1 and not call.keywords \
+                    and isinstance(parent.get(id(call)), ast.Expr):
+                if par.attr == 'extend':
+                    out += self.items_of(fn, env, call.args[0], depth)
+                    continue
+                if par.attr == 'append':
+                    loop = None
+                    cur = parent.get(id(call))
+                    while cur is not None and cur is not fn.node:
+                        if isinstance(cur, (ast.For, ast.AsyncFor, ast.While)):
+                            loop = cur
+                            break
+                        cur = parent.get(id(cur))
+                    if not isinstance(loop, ast.For) or loop.orelse:
+                        raise UnknownIdiom('%s: %s outside a plain for loop over a header source' % (fn.qual, short(call)))
+                    # the append runs once per iteration: directly in the loop body, no branch, no continue/break
+                    if parent.get(id(parent.get(id(call)))) is not loop or any(isinstance(x, (ast.Continue, ast.Break, ast.Return))
+                                                                              for x in walk_self(loop)):
+                        raise UnknownIdiom('%s: %s does not run once per header' % (fn.qual, short(call)))
+                    group, nr, vr = self._iterated(fn, env, loop.target, loop.iter, loop)
+                    ne, ve = self._pair(fn, call.args[0], call)
+                    if id(loop) in seen:
+                        raise UnknownIdiom('%s: two appends per header in one loop' % fn.qual)
+                    seen.add(id(loop))
+                    stmt = parent.get(id(call))
+                    out.append(_EmitGroup(group, fn, call, ne, ve, nr, vr, pre=loop.body[:loop.body.index(stmt)]))
+                    continue
+            raise UnknownIdiom('%s: cannot read the use %s of the header list' % (fn.qual, short(par if par is not None else n)))
+        return out
+
+
+class _CookieText(ast.NodeTransformer):
+    """`<c>.OutputString()` (the cookie's header text, the same call on both stacks) becomes the tracked root"""
+
+    def __init__(self, root):
+        self.root, self.n = root, 0
+
+    def visit_Call(self, c):
+        if isinstance(c.func, ast.Attribute) and c.func.attr == 'OutputString' and isinstance(c.func.value, ast.Name) and c.func.value.id == self.root \
+                and not c.args and not c.keywords:
+            self.n += 1
+            return ast.copy_location(ast.Name(id=_COOKIE_TEXT, ctx=ast.Load()), c)
+        return self.generic_visit(c)
+
+
+_SYNTH_KEEP: List[ast.AST] = []   # the CFG cache is keyed by id(node): synthetic defs stay alive
+
+
+def _emit_steps(p, g: _EmitGroup, which: str):
+    """[(kind, node, reason)] outermost first: how the emitted name / value differs from the stored one; or
+    ('const', value) for a constant name.  The per-item code (the statements of the loop body before the append, then
+    the pair) is read as a function of the loop variables, so a rebinding `value = value.strip()` counts."""
+    import copy
+
+    from .c15_helpers import Provenance
+
+    e = g.name_e if which == 'name' else g.value_e
+    root = g.name_root if which == 'name' else g.value_root
+    if e is None:
+        return []
+    if isinstance(e, ast.Constant):
+        return ('const', e.value)
+    if root is None:
+        raise UnknownIdiom('%s: the header %s %s is not built from the loop variable' % (g.fn.qual, which, short(e)))
+    body = list(g.pre) + [ast.copy_location(ast.Return(value=e), e)]
+    params = [x for x in (g.name_root, g.value_root) if x is not None]
+    if g.group == 'cookies':
+        tr = _CookieText(root)
+        body = [tr.visit(copy.deepcopy(st)) for st in body]
+        if tr.n < 1 or any(isinstance(x, ast.Name) and x.id == root for st in body for x in ast.walk(st)):
+            raise UnknownIdiom('%s: the cookie header value %s is not built from <cookie>.OutputString() alone' % (g.fn.qual, short(e)))
+        params, root = [_COOKIE_TEXT], _COOKIE_TEXT
+    node = ast.FunctionDef(name='_item', args=ast.arguments(posonlyargs=[], args=[ast.arg(arg=x) for x in params], kwonlyargs=[], kw_defaults=[], defaults=[]),
+                           body=body, decorator_list=[], type_params=[])
+    ast.copy_location(node, e)
+    ast.fix_missing_locations(node)
+    _SYNTH_KEEP.append(node)
+    item = Func(node, g.fn.qual + '.<item>', g.fn.module, None, g.fn)
+    pv = Provenance(p, item, root)
+    ret = [n for n in pv.cfg.live_nodes() if n.kind == 'stmt' and n.ast is body[-1]]
+    if len(ret) != 1:
+        raise AnchorError('%s: %s is not evaluated by a live CFG node' % (g.fn.qual, short(e)))
+    o = pv.classify(body[-1].value, ret[0].id)
+    if not o.derived:
+        raise UnknownIdiom('%s: the header %s %s is not built from the stored one' % (g.fn.qual, which, short(e)))
+    return list(o.xforms)
+
+
+def _emit_norm(step):
+    kind, node, _why = step
+    if isinstance(node, ast.Call) and isinstance(node.func, ast.Attribute):
+        return ('m', node.func.attr, tuple(unparse(a) for a in node.args) + tuple('%s=%s' % (k.arg, unparse(k.value)) for k in node.keywords))
+    return ('x', kind, type(node).__name__)
+
+
+def _emit_codec(p, fn: Func, node) -> Optional[str]:
+    """codec of `<x>.encode(...)`; None when the call has arguments the rule does not read"""
+    if not (isinstance(node, ast.Call) and isinstance(node.func, ast.Attribute) and node.func.attr == 'encode'):
+        return None
+    args = list(node.args)
+    kw = {k.arg: k.value for k in node.keywords}
+    if len(args) > 1 or set(kw) - {'encoding'} or (args and kw):
+        return None
+    ce = args[0] if args else kw.get('encoding')
+    if ce is None:
+        return 'utf-8'
+    v = ce.value if isinstance(ce, ast.Constant) else p.fold(fn.module, ce, None, fn)
+    return _codec(v) if isinstance(v, str) else None
+
+
+def _owner(p, node, default: Func) -> Func:
+    """the function whose text contains `node` (a step may sit in a helper that was looked through)"""
+    def has(fn):
+        return any(x is node for x in ast.walk(fn.node))
+    if has(default):
+        return default
+    best = None
+    for fn in p.funcs.values():
+        if has(fn) and (best is None or len(fn.qual) > len(best.qual)):
+            best = fn   # innermost def
+    return best or default
+
+
+def r16_header_emitters(run):
+    """Both header emitters deliver every stored (name, value) pair - the
+    header store, the extra headers, the cookies - with the text unchanged;
+    the only step one stack may have on its own is the tabled one: ASGI encodes
+    name and value to bytes with ISO-8859-1 (ASCII for cookies / extra
+    headers), which is what a WSGI server does with the native strings itself.
+    The per-item name / value expressions of both emitters are read (through
+    the module-level helper that builds the list) as chains of text steps and
+    compared; a strip / lower / replace / slice of the VALUE on one stack only
+    is a response whose header set depends on the stack.
+    Runtime witness: resp.set_header('X-Tags', 'alpha beta ') -> WSGI delivers
+    'alpha beta ', ASGI delivers b'alpha beta'."""
+    p = run.project
+    sides = {}
+    for tag, q in (('WSGI', WSGI_EMITTER), ('ASGI', ASGI_EMITTER)):
+        f = p.func(q)
+        rd = _EmitReader(p, f)
+        groups: Dict[str, _EmitGroup] = {}
+        for g in rd.built_list(f, None):
+            if g.group in groups:
+                raise UnknownIdiom('%s: the %s headers are emitted twice' % (f.qual, g.group))
+            groups[g.group] = g
+        sides[tag] = (f, groups)
+    wf, wg = sides['WSGI']
+    af, ag = sides['ASGI']
+    if set(wg) != set(ag) or 'store' not in wg:
+        raise AnchorError('header emitters: groups emitted WSGI %s / ASGI %s' % (sorted(wg), sorted(ag)))
+    for group in sorted(wg):
+        for which in ('name', 'value'):
+            ws = _emit_steps(p, wg[group], which)
+            as_ = _emit_steps(p, ag[group], which)
+            what = ('header emitters, %s %s: delivered unchanged by both stacks (ASGI: encoded with %s, nothing else)'
+                    % ({'store': 'resp._headers', 'extra': 'resp._extra_headers', 'cookies': 'resp._cookies'}[group], which,
+                       ' / '.join(_EMIT_CODECS[group])))
+            site = ag[group].site
+            if isinstance(ws, tuple) or isinstance(as_, tuple):
+                if not (isinstance(ws, tuple) and isinstance(as_, tuple)):
+                    raise UnknownIdiom('header emitters: constant %s %s on one stack only' % (group, which))
+                wv, av = ws[1], as_[1]
+                same = isinstance(wv, str) and isinstance(av, bytes) and any(_try_encode(wv, c) == av for c in _EMIT_CODECS[group])
+                run.check(same, what, af, '%r vs %r' % (wv, av), where=af.loc(site),
+                          runtime_witness='a response with a cookie: the header name differs between the stacks')
+                continue
+            # ---- the tabled ASGI step
+            if not as_:
+                raise UnknownIdiom('%s: the %s %s is delivered without an encoding step the rule can read' % (ag[group].fn.qual, group, which))
+            codec = _emit_codec(p, _owner(p, as_[0][1], ag[group].fn), as_[0][1])
+            if codec is None:
+                raise UnknownIdiom('%s: outermost step %s of the %s %s is not a plain .encode(<codec>)' % (ag[group].fn.qual, short(as_[0][1]), group, which))
+            if codec not in _EMIT_CODECS[group]:
+                own = _owner(p, as_[0][1], ag[group].fn)
+                run.fail(what + ' [encoded with %s: a non-ASCII character leaves ASGI as other bytes than the ISO-8859-1 ones the WSGI server sends, or not at all]'
+                         % codec, own, as_[0][1], where=own.loc(as_[0][1]),
+                         runtime_witness="resp.set_header('X-Name', 'caf\\xe9'): WSGI servers send the ISO-8859-1 byte E9")
+                continue
+            rest_a = as_[1:]
+            rest_w = ws
+            na = [_emit_norm(s) for s in rest_a]
+            nw = [_emit_norm(s) for s in rest_w]
+            if which == 'name' and group == 'store':
+                # the store's keys are lower-case already (C15): lower() on a name is the identity there
+                na = [x for x in na if x[:2] != ('m', 'lower')]
+                nw = [x for x in nw if x[:2] != ('m', 'lower')]
+                rest_a = [s for s in rest_a if _emit_norm(s)[:2] != ('m', 'lower')]
+                rest_w = [s for s in rest_w if _emit_norm(s)[:2] != ('m', 'lower')]
+            if na == nw:
+                run.ok(what, af.loc(site), '%s %s: %s' % (group, which, ' <- '.join(['encode(%s)' % codec] + ['.'.join(x[1:2]) if x[0] == 'm' else x[2] for x in na]) ))
+                continue
+            if na and nw and not all(x[0] == 'm' for x in na + nw):
+                raise UnknownIdiom('header emitters: both stacks transform the %s %s in ways the rule cannot compare (%s / %s)'
+                                   % (group, which, [short(s[1]) for s in rest_w], [short(s[1]) for s in rest_a]))
+            # the first step one stack has and the other has not
+            extra_a = [s for s, n_ in zip(rest_a, na) if n_ not in nw]
+            extra_w = [s for s, n_ in zip(rest_w, nw) if n_ not in na]
+            if not extra_a and not extra_w:   # same steps, other order
+                extra_a = rest_a[:1]
+            for stack, steps, grp in (('ASGI', extra_a, ag[group]), ('WSGI', extra_w, wg[group])):
+                for (kind, node, why) in steps:
+                    own = _owner(p, node, grp.fn)
+                    run.fail(what + ' [%s only: %s]' % (stack, why), own, node, where=own.loc(node) if hasattr(node, 'lineno') else own.loc(),
+                             witness=['WSGI steps: %s' % ([short(s[1]) for s in ws] or 'none'),
+                                      'ASGI steps: %s' % [short(s[1]) for s in as_]],
+                             runtime_witness="resp.set_header('X-Tags', 'alpha beta '): the two stacks deliver different header values "
+                                             "('alpha beta ' vs 'alpha beta')")
+
+
+def _try_encode(s: str, codec: str):
+    try:
+        return s.encode(codec)
+    except (UnicodeError, LookupError):
+        return None
+
+
 def _ancestors(node, parent):
     cur = parent.get(id(node))
     while cur is not None:
@@ -1823,3 +2206,5 @@ def check(run):
     run.rule('R5', r5_driver_tables, 'test drivers provide what the request classes read; header-name mangling agrees', floor=12)
     run.rule('R14', r14_header_mapping_entries, 'req.headers / headers_lower: one entry per request header whatever its value (sample evaluation), both stacks', floor=8)
     run.rule('R15', r15_one_shot_scope_fields, "scope['client'] / scope['server'] (possibly forward-only iterables) are consumed at one memoised site per request", floor=2)
+    run.assume('the Cython twin of falcon.util.misc._encode_items_to_latin1 (not built here) behaves like the pure-Python fallback')
+    run.rule('R16', r16_header_emitters, 'header emitters: each stored (name, value) is delivered unchanged by both stacks apart from the tabled ASGI byte encoding', floor=6)
